@@ -158,18 +158,34 @@ func isListNode(n parquet.Node) bool {
 }
 
 func fieldByTagName(v reflect.Value, name string) reflect.Value {
+	if f, ok := lookupField(v, name); ok {
+		return f
+	}
+	panic("no field " + name + " in " + v.Type().String())
+}
+
+// lookupField finds the struct field whose parquet name is `name`; the fields of embedded
+// (anonymous, untagged) structs are promoted, as the schema flattens them.
+func lookupField(v reflect.Value, name string) (reflect.Value, bool) {
 	t := v.Type()
 	for i := 0; i < t.NumField(); i++ {
-		tag := t.Field(i).Tag.Get("parquet")
+		sf := t.Field(i)
+		tag := sf.Tag.Get("parquet")
+		if sf.Anonymous && tag == "" && sf.Type.Kind() == reflect.Struct {
+			if f, ok := lookupField(v.Field(i), name); ok {
+				return f, true
+			}
+			continue
+		}
 		tn := splitTag(tag)[0]
 		if tn == "" {
-			tn = t.Field(i).Name
+			tn = sf.Name
 		}
 		if tn == name {
-			return v.Field(i)
+			return v.Field(i), true
 		}
 	}
-	panic("no field " + name + " in " + t.String())
+	return reflect.Value{}, false
 }
 
 type levels struct{ rep, depth, def int }
